@@ -14,7 +14,7 @@ EXTRA = {
  "C06": " Also: averaging while monitoring, polls while nothing runs (any stream), two streams half of the time, a region held across abort and released in part afterwards.",
  "C07": " Also: stop from a second thread, the scenario on stream 1 only, the client programs of the lifecycle family (stop/abort twice, before any start, after the acquisition finished by itself) judged with this property's rules, partial release of a region held across stop/abort.",
  "C08": " Also: the read-only API calls (shape, configuration read-back, metadata, backlog) with device-use events, cameras that reject their settings (while not running), unopenable devices.",
- "C09": " Also: get_shape failures, empty frame calls, the scenario on stream 1 only.",
+ "C09": " Also: get_shape failures, empty frame calls, the scenario on stream 1 only, averaging windows 1..3, a start right after the fault without configuring the failed device again (refused or not), a client that only polls the state after the fault.",
  "C10": " Also: another window size between acquisitions, all integer sample types incl. u10/u12/u14.",
  "C11": " Also: a driver call with a pointer that is none of the driver's devices (CallOnUnknownDevice); a crash of the wrappers under a HAL call is a verdict.",
  "C12": " Also: a malformed pattern repeated right after a successful selection on the same device manager; a pattern the regex library itself refuses to compile must give an error (MalformedAccepted); refusals are confirmed together with the calls that preceded them.",
@@ -22,7 +22,7 @@ EXTRA = {
  "C15": " Also: one acquisition beyond 4 GiB (multi-GiB all-zero frames written sparsely by the OS seam, positions reported in 8-byte units), a sweep over every metadata length 0..419 (thorough 0..4199), storage_set on a running device.",
  "C16": " Also: storage_set on a running device (accepted / rejected: finding F10), OpenWrongPath.",
  "C17": " Also: the concurrent camera (real streamer thread under the deterministic scheduler) re-configured in shape / sample type while it runs and a frame call may be pending: nothing is written past the image reported with the frame and it is filled to its end.",
- "C18": " Also: sets that keep the trigger setting while running, shape changes while running.",
+ "C18": " Also: sets that keep the trigger setting while running, shape changes while running; the trigger enabled while the camera runs is judged (FrameWithoutTriggerAfterEnable: frame already published + exposure in flight + a latch not provably consumed may still arrive), with the same accounting carried as ghost state in SimCamStream's Toggle configurations (every set switches the trigger over), so that TLC shows no interleaving of the code as it is can be refused by the rule.",
 }
 
 
@@ -76,7 +76,7 @@ CHECKS = {
     category="model_checking", design_ref="DESIGN.md section 6 (C18), section 15",
     technique="TLA+/PlusCal model of the camera's streamer/controller/caller threads checked by TLC (safety + liveness under fairness) and TLC trace validation (SimCamStreamObs) of the real simulated.camera.c executed under a deterministic scheduler",
     text="SimCamStream models simulated.camera.c's streamer, trigger, start/stop and get_frame at scheduling-point granularity (lock, both condition variables, unlocked flag reads where the code has them); TLC checks ids strictly increasing, trigger gating, no stale frame and, under fairness, that stop returns and releases a pending frame call. The real camera code runs under the deterministic scheduler (random/PCT/starvation schedules, spurious wake-ups, trigger toggled while live, up to 3 restarts) with a hang oracle; every call trace, ordered by linearization points taken under the camera lock, is judged by SimCamStreamObs in TLC.",
-    note="Trusted: TLC; the deterministic scheduler's model of lock/cv/thread primitives; sequentially consistent unlocked flag accesses; client contract: start is not issued while a frame call of the previous run is in flight; trigger gating is judged only for runs during which the trigger setting stayed enabled (a disabling set fires the trigger by design)."),
+    note="Trusted: TLC; the deterministic scheduler's model of lock/cv/thread primitives; sequentially consistent unlocked flag accesses; client contract: start is not issued while a frame call of the previous run is in flight; trigger gating from the first frame is judged only for runs during which the trigger setting stayed enabled (a disabling set fires the trigger by design), gating after an enable while running with the allowance stated in the check description; start is not issued while a set is in progress."),
  "C08": dict(
     category="model_checking", design_ref="DESIGN.md section 6 (C08), section 15",
     technique="TLA+ model checking (TLC on Lifecycle.tla: API-level life cycle over 2 streams x 2 cameras x 2 storages, safety + liveness) bound to the code by checking that recorded executions are behaviours of the model (LifecycleTrace), plus the TLA+ observation spec LifecycleObs evaluated by TLC over device-call traces of grammar-generated client programs run under a deterministic scheduler",
